@@ -71,6 +71,15 @@ PROGRAMS = [
     ("constants", "a = Exp(2)\nb = Cos(0)\nd = Sin(1/2)\nx = 0\nwhile true:\n    k = Exp(-1)\n    x = x + a*k + b - d\nend\n", ["a", "x", "b", "d"]),
     ("reference_chain", "x = 0\nu = 0\ns = 0\nt = 0\nwhile true:\n    x = Bernoulli(1/3)\n    u = x\n    s = Sin(u)\n    t = t + s + u*s\nend\n", ["s", "t", "u*s"]),
     ("previous_value", "x = 1\ny = 0\nz = 0\nwhile true:\n    x = DiscreteUniform(1, 2)\n    z = z + y\n    y = Cos(x)\nend\n", ["y", "z", "y*x"]),
+    # conditioned functional assignments: in a branch, under the loop guard, nested, with a constant argument
+    ("cond_exp_of_draw", "f = 0\ny = 0\nu = 0\ns = 0\nwhile true:\n    f = Bernoulli(1/2)\n    u = DiscreteUniform(0, 1)\n    if f == 1:\n        y = Exp(u)\n    end\n    s = s + y\nend\n",
+     ["y", "s", "y*u", "y**2"]),
+    ("cond_sin_else", "f = 0\ny = 0\nu = 0\ns = 0\nwhile true:\n    f = Bernoulli(1/3)\n    u = DiscreteUniform(1, 2)\n    if f == 1:\n        y = Sin(u)\n    else:\n        s = s + y\n    end\nend\n",
+     ["y", "s", "y*f"]),
+    ("guarded_cos", "stop = 0\ny = 0\nu = 0\nt = 0\nwhile stop == 0:\n    u = DiscreteUniform(0, 2)\n    y = Cos(u)\n    t = t + y\n    stop = Bernoulli(1/4)\nend\n",
+     ["y", "t", "y*stop"]),
+    ("cond_const_arg", "f = 0\ny = 0\ns = 0\nwhile true:\n    f = Bernoulli(1/2)\n    if f == 0:\n        y = Exp(1)\n    end\n    s = s + y\nend\n", ["y", "s"]),
+    ("cond_on_argument", "y = 0\nu = 0\ns = 0\nwhile true:\n    u = DiscreteUniform(0, 2)\n    if u > 0:\n        y = Sin(u)\n    end\n    s = s + y*u\nend\n", ["y", "s", "y*u"]),
     ("categorical_arg", "x = 0\ns = 0\nq = 0\nwhile true:\n    x = Categorical(1/2, 1/4, 1/4)\n    s = Sin(x)\n    q = q + s\nend\n", ["s", "q"]),
 ]
 
@@ -135,7 +144,7 @@ def main(tier, seed):
     items = program_part(None, tier == "quick")
     return analysis_check("C13", tier, seed, items=items, want=["parsed", "moments"],
                           builders=[C.b_source, b_func_args, b_moments_tol], N=4, post=post, timeout=150,
-                          variants=[("", {}), ("-exact", {"exact_func_moments": True})],
+                          variants=[("", {}), ("-exact", {"exact_func_moments": True}), ("-c2a", {"cond2arithm": True, "exact_func_moments": True})],
                           assumptions=["enclosures of sin, cos, exp at the support points come from mpmath (35 digits) and are trusted",
                                        "default mode values may deviate by 1e-18 relative (documented 20-digit rounding), exact mode by 1e-30",
                                        "only finitely supported X and constants; continuous X is not decided",
